@@ -37,6 +37,7 @@ Example C18_refused_nonvacuous :
   op_accepted ORefused = false /\ op_accepted (ORot mid (Some (N3 0 1 1))) = false /\
   op_accepted (ORot mid (Some (N3 2 1 1))) = true.
 Proof. repeat split. Qed.
+Print Assumptions C18_refused_nonvacuous.
 
 (* ... so refused calls can be erased from any history (composition theorem for histories with refused
    steps: C18_compose / C18_clear_restores apply to the accepted calls) *)
@@ -59,6 +60,7 @@ Print Assumptions C18_compose_in_order.
 Example C18_compose_in_order_nonvacuous :
   no_clear [ORot (M3 (V3 0 (-1) 0) (V3 1 0 0) (V3 0 0 1)) None; ORefused; ORot mid (Some (N3 1 2 3))].
 Proof. exact I. Qed.
+Print Assumptions C18_compose_in_order_nonvacuous.
 
 (* the evaluation order used by the checker is the model's function *)
 Theorem C18_fast_eval_is_model : forall rnd nv perm orig R n',
@@ -79,6 +81,7 @@ Print Assumptions C18_bbox.
 Example C18_bbox_nonvacuous : let f := Fld (V3 0 0 0) (V3 4 2 1) (N3 4 2 1) (fun _ _ _ _ => 0) in
   vx (f_pmin f) <= vx (f_pmax f) /\ vy (f_pmin f) <= vy (f_pmax f) /\ vz (f_pmin f) <= vz (f_pmax f).
 Proof. cbn. repeat split; discriminate. Qed.
+Print Assumptions C18_bbox_nonvacuous.
 
 (* rowimg is the component of the rotated corner *)
 Theorem C18_corner_image : forall rnd, (forall x, rnd x == x) -> forall R c s e,
@@ -142,6 +145,7 @@ Print Assumptions C18_mapping_is_permutation.
 
 Example C18_mapping_nonvacuous : ordered_idx [Some 2; Some 0; Some 1]%nat = Some [1; 2; 0]%nat.
 Proof. reflexivity. Qed.
+Print Assumptions C18_mapping_nonvacuous.
 
 (* accepted exactly: 3-d mesh, scalar, or 3-vector whose every component is mapped to a dimension and
    whose every dimension carries a component *)
@@ -188,6 +192,7 @@ Print Assumptions C18_locate_brackets.
 
 Example C18_one_cell_inside_nonvacuous : 0 < 4 /\ (1 <= 4)%nat /\ one_cell_inside 0 4 4 (0 + 2).
 Proof. unfold one_cell_inside. cbn. repeat split; (discriminate || lia). Qed.
+Print Assumptions C18_one_cell_inside_nonvacuous.
 
 (* the interpolator at such a point IS the linear interpolation between the eight neighbouring cell centres
    (no hypothesis on the surrounding values any more) *)
@@ -207,6 +212,7 @@ Print Assumptions C18_interior_is_trilinear.
 
 Example C18_wf_fld_nonvacuous : wf_fld (Fld (V3 0 0 0) (V3 4 2 1) (N3 4 2 1) (fun _ _ _ _ => 0)).
 Proof. unfold wf_fld. cbn. repeat split; (reflexivity || lia). Qed.
+Print Assumptions C18_wf_fld_nonvacuous.
 
 (* C18 in the property's words: a target cell whose back-rotated centre lies at least one cell inside the
    original region carries R^ applied to the linear interpolation of the original (scalar: the interpolant) *)
@@ -280,6 +286,7 @@ Print Assumptions C18_quarter_turn.
 
 Example C18_quarter_turn_nonvacuous : is_perm3 [2; 0; 1]%nat.
 Proof. cbn. tauto. Qed.
+Print Assumptions C18_quarter_turn_nonvacuous.
 
 Theorem C18_quarter_turn_scalar : forall rnd, (forall x, rnd x == x) -> forall perm orig i j k, wf_fld orig ->
   let n := f_n orig in
@@ -324,6 +331,7 @@ Print Assumptions C18_n_adm_is_round.
 Example C18_n_adm_is_round_nonvacuous :
   0 <= 0 /\ 0 < 1 /\ cube 1 * 1 == 1 /\ 0 < 1 /\ 0 <= 3 /\ 0 <= qnat 3 - (1 # 2) - 0 /\ n_adm1 0 1 1 3 1 3 = true.
 Proof. cbn. repeat split; (discriminate || reflexivity). Qed.
+Print Assumptions C18_n_adm_is_round_nonvacuous.
 
 (* irrational cube root: the admitted n is consistent with EVERY rational bracket a1 <= cbrt(dV/vol) <= a2 *)
 Theorem C18_n_adm_brackets : forall dV vol E L n,
@@ -346,3 +354,4 @@ Print Assumptions C18_rounding_step.
 
 Example C18_rounding_step_nonvacuous : forall y, Qabs ((fun x => x) y - y) <= 0 * Qabs y.
 Proof. intro y. cbv beta. setoid_replace (y - y) with 0 by ring. cbn. rewrite Qmult_0_l. apply Qle_refl. Qed.
+Print Assumptions C18_rounding_step_nonvacuous.
